@@ -60,6 +60,30 @@ def gen_straddle(rng, i):
     return "p%d %s %s %s" % (i, ca, cb, " ".join(ops)), "straddle"
 
 
+def gen_early(rng, i):
+    """data that overtakes the connect segment: simultaneous open (or a passive side that answers and is established by the next segment), the
+    connect segment of the side that becomes established first is lost, the data it sends straight away arrives at a peer still in
+    SYN-SENT / LISTEN; the connect segment is retransmitted later. Honest network (loss and reordering only)."""
+    conv = rng.choice([0, 7, rng.randrange(1 << 32)])
+    ca = cfg(rng, "config") + ":%d" % conv
+    cb = cfg(rng, "config") + ":%d" % conv
+    seed = rng.randrange(1, 250)
+    t = rng.choice([1000, 1000, 4294967295 - rng.randrange(0, 5000)])
+    ops = ["T%d" % t, "cA", "cB", "N", rng.choice(["X", "X", "X", "U0"])]
+    ops.append("sB%d:%d" % (rng.choice([1, 100, 1277, 1284, 3000, 8000, 30000]), seed))
+    for _ in range(rng.randrange(1, 8)):
+        ops.append(rng.choice(["N", "N", "N", "D1", "D2", "X"]))
+    if rng.random() < 0.5:
+        ops.append("sA%d:%d" % (rng.choice([1, 100, 3000]), seed))
+    for _ in range(rng.randrange(1, 5)):
+        t = (t + rng.choice([250, 300, 1000, 3000])) % (1 << 32) or 1
+        ops += ["T%d" % t, "kB", "kA"] + [rng.choice(["N", "N", "N", "D1", "X"]) for _ in range(rng.randrange(1, 6))]
+        if rng.random() < 0.4:
+            ops.append("r%s%d" % (rng.choice("AB"), rng.choice([10, 1000, 200000])))
+    ops += ["Q6", "rA200000", "rB200000", "Q6", "rA200000", "rB200000", "hA1", "Q4", "rB200000", "hB1", "Q6", "rA200000", "rB200000", "nA0", "nB0"]
+    return "e%d %s %s %s" % (i, ca, cb, " ".join(ops)), "early"
+
+
 def gen_heal(rng, i):
     """C09: an established connection, a total outage of 0..120 s (every packet lost, readers stalled, clocks served), then a network
     that delivers everything and readers that keep reading for 150 s, then a graceful close on both sides"""
@@ -92,6 +116,8 @@ def gen_case(rng, i, kinds):
         return gen_straddle(rng, i)
     if kind == "heal":
         return gen_heal(rng, i)
+    if kind == "early":
+        return gen_early(rng, i)
     conv = rng.choice([0, 7, 0xffffffff, rng.randrange(1 << 32)])
     ca = cfg(rng, kind) + ":%d" % conv
     cb = cfg(rng, kind) + ":%d" % (conv if kind != "foreign" or rng.random() < 0.3 else (conv + 1) % (1 << 32))
